@@ -13,7 +13,7 @@ def run(ctx):
     if ctx.tier == "thorough":
         ctx.leanchecker("NGF.Props.C07")
 
-    n = 220 if ctx.tier == "quick" else 6000
+    n = 180 if ctx.tier == "quick" else 6000
     lines = []
     # corpus first: minimised cluster states (JSON arrays of objects) that once failed
     cdir = os.path.join(vcheck.VERIF, "corpus", "C07")
@@ -27,6 +27,8 @@ def run(ctx):
                     ncorpus += len(out)
     if ctx.tier == "quick":
         lines += ctx.harness(["-seed", ctx.seed, "-n", n]) or []
+        # handler stream: batch sequences through the REAL eventHandlerImpl.HandleEventBatch (one line per batch)
+        lines += ctx.harness(["-seed", ctx.seed + 104729, "-hseq", 70, "-hb", 5]) or []
     else:
         # 16 independent streams
         per = n // 16
@@ -36,6 +38,8 @@ def run(ctx):
             if not os.path.exists(binp):
                 break
             procs.append(subprocess.Popen([binp, "-seed", str(ctx.seed * 1000 + k), "-n", str(per)],
+                                          stdout=subprocess.PIPE, text=True))
+            procs.append(subprocess.Popen([binp, "-seed", str(ctx.seed * 1000 + 500 + k), "-hseq", "150", "-hb", "6"],
                                           stdout=subprocess.PIPE, text=True))
         for p in procs:
             out, _ = p.communicate()
@@ -64,8 +68,15 @@ def run(ctx):
     nontrivial = set()
     panics = 0
     samples = []
+    hbatches = collections.Counter()
     for l, v in zip(lines, verdicts):
         d = json.loads(l)
+        if d.get("h"):
+            b = d["h"]["batches"][-1]
+            out = "ok" if (b["w"] and b["r"] and b["api"]) else ("write-fails" if not b["w"] else
+                                                                 ("reload-fails" if not b["r"] else "plus-api-fails"))
+            hbatches[("plus " if d["h"]["plus"] else "oss ") + {"c": "ClusterStateChange", "e": "EndpointsOnlyChange",
+                                                                  "n": "NoChange"}[b["ct"]] + " " + out] += 1
         for t, c in (d.get("tags") or {}).items():
             tags[t] += c
         nroutes = len(d["sum"].get("routes") or [])
@@ -94,6 +105,7 @@ def run(ctx):
             ctx.finding(f"C07:{sig}", f"status does not tell the truth: {sig} ({detail}) in case {d['id']}",
                         {"case": d["id"], "failure": tag, "reloadErr": d["reloadErr"],
                          "replay_cmd": "harness/cmd/c07 -seed S -only I -dump (id = s<S>-<I>-<ok|err>)",
+                         "batch_sequence": d.get("h"), "truth": d.get("failKind"),
                          "objs": d["objs"], "sum": d["sum"], "st": d["st"], "conf": d["conf"]})
 
     ctx.finish({
@@ -101,7 +113,9 @@ def run(ctx):
         "distinct_nontrivial": len(nontrivial),
         "rule": "cluster states (shared scen generator + C07 emphasis) x reload outcome {ok, failed} run through the REAL "
                 "graph builder, configuration builder, status.Prepare*Requests and status setters; non-trivial = distinct "
-                "(objects, reload outcome) with a winning Gateway that has listeners and at least one route in the graph",
+                "(objects, reload outcome) with a winning Gateway that has listeners and at least one route in the graph; plus a "
+                "handler stream: batch sequences {ClusterStateChange, EndpointsOnlyChange, NoChange} x {ok, ReplaceFiles error, "
+                "Reload error, Plus API error} through the REAL eventHandlerImpl.HandleEventBatch, judged after every batch",
         "samples": samples,
         "traces_validated_against_impl": len(lines) - diffs,
         "correspondence_diffs": diffs,
@@ -110,12 +124,15 @@ def run(ctx):
         "skipped": dict(skipped),
         "panics": panics,
         "generator_tags": dict(tags),
+        "handler_batches": dict(hbatches),
         "routes_in_graph_histogram": {str(k): v for k, v in sorted(sizes.items())},
     }, assumptions=[
         "Kubernetes API server: objects are admissible (CRD schema + CEL of gateway-api v1.2.1 experimental channel, after "
         "defaulting); the harness applies allowedRoutes defaulting and the parentRefs / listener uniqueness CEL rules",
         "the status objects are fresh (no entries of other controllers); C08 covers merging with existing entries",
         "HTTPRoute and GRPCRoute names are disjoint in the generator (dataplane MatchRule.Source carries no kind)",
+        "handler stream: generator, file manager and NGINX runtime manager are stubs whose outcome the harness chooses; the "
+        "truth 'NGINX failed to take the last applied configuration' is what those stubs experienced",
     ], trusted=[
         "Lean judge NGF.Model.StatusJudge: an independent reading of Gateway API binding (parentRef/allowedRoutes/hostname "
         "intersection/TLS hostname claims) over the objects, combined with the REAL dataplane.Configuration",
